@@ -5,7 +5,7 @@ from vlib import qcode
 QUOTES = ["'", '"', "'''", '"""']
 NAMES = ["a", "b", "c", "ab", "s", "t", "x1", "_y", "long_name"]
 UNQ = ["1", "2.5", "x", "None", "Auto", "yes", "*a", "a+b", "#x", "x#y", "$a", "a=b", "e'm", 'x"y', "!", ".a", "-3", "a.b", "(1,2)", "\\x"]
-QTEXT = ["", "q", "a b", "it's", 'say "hi"', "back\\slash", "end\\", "li\nne", "\n", "two\n\nnl", "$v", "#", "{;}", "\\\n", "tab\there", "a\\'b"]
+QTEXT = ["", "q", "\\", "#", ";", "a b", "it's", 'say "hi"', "back\\slash", "end\\", "li\nne", "\n", "two\n\nnl", "$v", "#", "{;}", "\\\n", "tab\there", "a\\'b"]
 # content of switched-off regions: anything whose lines do not START with "#phil" (a line-initial "#phil..." is
 # interpreted by scan_for_start; see findings F5a/F5b)
 JUNK = ["x = 1\n", "garbage { ; = \n", "'unclosed\n", " #phil __ON__\n", "}\n", '"""\n', "# comment\n", "\n", "a #phil __ON__\n",
@@ -216,6 +216,13 @@ class Renderer:
                 else:
                     self.blank()
             text = v if q is None else quote(q, v)
+            if q is not None and self.stage_b and r.random() < 0.15 and all(q2 is not None for _, q2 in ws[i + 1:]):
+                # continuation inside the quotes: a backslash-newline pair is dropped by the tokenizer
+                body = text[len(q):len(text) - len(q)]
+                pos = [j for j in range(len(body) + 1) if j == 0 or body[j - 1] != "\\"]
+                j = r.choice(pos)
+                text = q + body[:j] + "\\\n" + body[j:] + q
+                self.note("inquote_continuation")
             res.append([v, qcode(q), str(self.line)])
             self.emit(text)
             prev_multiline = prev_multiline or "\n" in text
